@@ -501,7 +501,7 @@ class SimSocket:
 
     def deliver(self, data):
         """Environment: bytes arrive from the peer (one segment / one TLS record)."""
-        if data and not self.closed and not self.rst:
+        if data and not self.rst:
             self.inbox.append(bytes(data))
 
     def peer_eof(self):
@@ -548,9 +548,11 @@ class SimSocket:
         s = self._s
         s.yield_point("recv")
         self.recv_sizes.append(n)
+        if self.closed:
+            raise OSError(errno.EBADF, "Bad file descriptor")
+        # a call that is already blocked when another thread closes the socket keeps waiting and still
+        # receives what arrives (the in-flight system call holds the kernel object); new calls get EBADF
         while True:
-            if self.closed:
-                raise OSError(errno.EBADF, "Bad file descriptor")
             if self.tls is not None and self.plain:
                 out, self.plain = self.plain[:n], self.plain[n:]
                 self.log.append((s.now, "R", n, len(out)))
